@@ -3,7 +3,8 @@ EXTENDS SyncExp, Json, SequencesExt
 CONSTANTS H, F, ForkAt, CpHs, MaxEnv, Emit, Scenario
 ParV == [b \in 1 .. (H + F) |-> IF b <= H THEN b - 1 ELSE IF b = H + 1 THEN ForkAt ELSE b - 1]
 CpsV == {h \in CpHs : h <= H}
-VARIABLES hist, nenv, ign     \* ign: an inv announcement was ignored on the current connection
+VARIABLES hist, nenv, ign     \* ign: an inv announcement was ignored earlier in this history (sticky: the engine then
+                              \* believes it is level with the node, and a header announced later is stored as an orphan for good)
 mxvars == <<xvars, hist, nenv, ign>>
 NB == H + F
 StV == [k \in 1 .. (NB + 1) |-> IF (k - 1) \in DOMAIN rows' THEN rows'[k - 1].st ELSE "-"]
@@ -12,7 +13,7 @@ MXInit == XInit /\ hist = <<>> /\ nenv = 0 /\ ign = FALSE
 LogEnv(rec) == hist' = Append(hist, rec @@ [kind |-> "env"] @@ Obs) /\ nenv' = nenv + 1
 MXEnv ==
   /\ xq = <<>> /\ nenv < MaxEnv
-  /\ \/ \E b \in {0} \cup (1 .. NB) : Start(b) /\ LogEnv([op |-> "start", b |-> b]) /\ ign' = FALSE
+  /\ \/ \E b \in {0} \cup (1 .. NB) : Start(b) /\ LogEnv([op |-> "start", b |-> b]) /\ UNCHANGED ign
      \/ NodeReply /\ LogEnv([op |-> "reply", ids |-> ReplyIds(Head(rq))]) /\ UNCHANGED ign
      \/ NodeClose /\ LogEnv([op |-> "close"]) /\ UNCHANGED ign
      \/ \E b \in 1 .. NB : Par[b] = nbest /\ NodeAnnounce(b) /\ LogEnv([op |-> "announce", b |-> b, how |-> IF gotSH THEN "headers" ELSE "inv"]) /\ UNCHANGED ign
@@ -22,7 +23,7 @@ MXDrain == /\ xq = <<>> /\ nenv >= MaxEnv /\ conn /\ rq # <<>>
 MXStep == XStep /\ hist' = Append(hist, Obs) /\ UNCHANGED nenv /\ ign' = (ign \/ Head(xq).t = "inv")
 MXNext == MXStep \/ MXEnv \/ MXDrain
 MXSpec == MXInit /\ [][MXNext]_mxvars
-XView == <<xvars, ign>>
+XView == <<xvars, ign, nenv>>
 Terminal == xq = <<>> /\ nenv >= MaxEnv /\ (~conn \/ rq = <<>>)
 StNow == [k \in 1 .. (NB + 1) |-> IF (k - 1) \in DOMAIN rows THEN rows[k - 1].st ELSE "-"]
 \* known limitation X1 of the experimental engine: inv announcements are ignored for ever (syncedCheckpoints is never set), so
